@@ -260,6 +260,7 @@ pub fn build_chain<I: DiffItem>(
             }
         }
         t.feeds_sort = feeds_sort_of(chain.get(i));
+        t.group = stages.iter().map(|(s, li)| (*s, li.map(|i| limits.writers[i].tap.clone()))).collect();
         t.record = i >= chain.len();
         let t = Rc::new(RefCell::new(t));
         taps.push(t.clone());
